@@ -338,6 +338,36 @@ static void bw_shape_guards() {
   }
 }
 
+// ---- Shape: a rejected in-place update (update_dim / update_batch) leaves the Shape exactly as it was
+static void shape_updates() {
+  struct Case { Shape s; int kind; std::uint32_t a, b; const char *what; };
+  const std::vector<Case> cases = {
+    {Shape({65536, 65535}), 0, 2, 2, "update_dim appends an axis, volume exceeds 2^32-1"},
+    {Shape({3}, 0x40000000u), 0, 1, 2, "update_dim appends an axis, volume*batch exceeds 2^32-1"},
+    {Shape({}, 0x80000000u), 0, 0, 2, "update_dim on a scalar with a huge batch"},
+    {Shape({3, 4}, 1u << 28), 0, 5, 2, "update_dim appends axis 5 with a large batch"},
+    {Shape({65536, 32768}), 0, 1, 65536, "update_dim resizes an existing axis beyond the limit"},
+    {Shape({2, 3}, 2), 0, 1, 0, "update_dim to extent 0"},
+    {Shape({2, 3}, 2), 0, 8, 2, "update_dim at MAX_DEPTH"},
+    {Shape({2, 3}, 2), 0, 0xffffffffu, 2, "update_dim at axis 2^32-1"},
+    {Shape({2, 3}, 2), 1, 0, 0, "update_batch to 0"},
+    {Shape({65536, 65535}), 1, 2, 0, "update_batch beyond the limit"},
+  };
+  for (const Case &c : cases) {
+    Shape s = c.s; const Shape before = c.s;
+    const std::string str = s.to_string(); const std::uint32_t dp = s.depth();
+    std::string r = outcome([&]() { if (c.kind == 0) s.update_dim(c.a, c.b); else s.update_batch(c.a); });
+    if (r != "Error") { fail(std::string("Shape: ") + c.what, "expected primitiv::Error, got " + r); continue; }
+    if (!(s == before) || s.depth() != dp || s.to_string() != str || s.dims() != before.dims() || s.volume() != before.volume() || s.batch() != before.batch()
+        || s.is_scalar() != before.is_scalar() || s.is_matrix() != before.is_matrix())
+      fail(std::string("Shape: ") + c.what, "rejected call changed the Shape: " + str + " -> " + s.to_string() + " (depth " + std::to_string(dp) + " -> " + std::to_string(s.depth()) + ")");
+    else ok(c.what);
+  }
+  // successful updates for contrast (the check above is not vacuous)
+  Shape t({2, 3}, 2); t.update_dim(2, 4); if (t != Shape({2, 3, 4}, 2)) fail("Shape: successful update_dim", t.to_string()); else ok("update ok");
+  t.update_dim(2, 1); if (t != Shape({2, 3}, 2) || t.depth() != 2) fail("Shape: update_dim back to 1 trims the axis", t.to_string()); else ok("trim ok");
+}
+
 static void invalid_objects() {
   devices::Naive dev(1u), dev2(2u);
   Device::set_default(dev);
@@ -530,6 +560,7 @@ int main(int argc, char **argv) {
   std::mt19937 rng(seed);
   // each block under a catch-all: an exception escaping a block is itself a finding, not a crash
   { std::string r = outcome([&]() { invalid_objects(); }); if (r != "ok") fail("block invalid_objects", "escaped: " + r); }
+  { std::string r = outcome([&]() { shape_updates(); }); if (r != "ok") fail("block shape_updates", "escaped: " + r); }
   { std::string r = outcome([&]() { wrong_size_data(); }); if (r != "ok") fail("block wrong_size_data", "escaped: " + r); }
   { std::string r = outcome([&]() { bw_shape_guards(); }); if (r != "ok") fail("block bw_shape_guards", "escaped: " + r); }
   { std::string r = outcome([&]() { parameter_with_stats(); }); if (r != "ok") fail("block parameter_with_stats", "escaped: " + r); }
